@@ -1,4 +1,9 @@
-"""C06: circuit transformers preserve what the circuit computes."""
+"""C06: circuit transformers preserve what the circuit computes.
+
+Extension families (2026-09-26): drop_diagonal_before_measurement.*, stratified_circuit.readers.*,
+defer_measurements.repeated.* (formerly finding.defer_measurements.repeated_key), gauge_mm.cphase.*,
+dynamical_decoupling.chain*, merge_1q_symbolized.*  -- what is symbolic / enumerated / outside is stated in
+`bounds['extension_families']` and `bounds['outside']` in main()."""
 from __future__ import annotations
 
 import itertools
@@ -705,7 +710,7 @@ def fam_stratify_readers(thorough):
         'r3_other': (3, [[('M', [0], Ma), ('H', [1])], [('X', [1], Ca)], [('Y', [2], Ca)], [('M', [2], Ma)]]),
     }
     if thorough:
-        S['T_r3_three'] = (3, [[('X', [0])], [('M', [0], Ma), ('H', [1])], [('Z', [1])], [('X', [1], Ca)], [('Y', [2], Ca)], [('X', [0], Ca)], [('M', [0], Ma)]])
+        S['T_r3_three'] = (3, [[('M', [0], Ma), ('H', [1])], [('X', [1], Ca)], [('Y', [2], Ca)], [('X', [0], Ca)], [('M', [0], Ma)]])
     on = lambda i: (lambda op: cirq.LineQubit(i) in op.qubits)
     CATS = [
         ('none', lambda: ()),
@@ -1578,7 +1583,7 @@ def fam_gauge_mm(thorough):
     # blocks with three active qubits: 64 gauges; in the quick tier the first draw is fixed (X)
     FIX_FIRST = () if thorough else ('sub_then_block3', 'block_cz_z_pauli')
     if thorough:
-        S['T_block3'] = (3, [[('CZ', [0, 1]), ('Z', [2])], [('Y1', [0]), ('CZ', [1, 2])], [('CZ', [0, 1]), SUBX], [('CZ', [0, 2])]], 'unitary')
+        S['T_block3'] = (3, [[('CZ', [0, 1]), ('Z', [2])], [('Y1', [0]), ('CZ', [1, 2])], [('CZ', [0, 2])], [('CZ', [0, 1]), SUBX]], 'unitary')
 
     def gateless(circ):
         return [op for op in circ.all_operations() if op.gate is None]
@@ -1905,7 +1910,10 @@ LEVEL = (
     'flows through the real pass (phase tracking, commutation rules, placement, merging, deferral, gauge selection under a scripted PRNG); the '
     'meaning of input and output circuit is composed by an independent reference interpreter and z3 decides equality up to global phase '
     '(out*in^dagger = g*I) or, with measurements / classical control, equality of the per-record super-operators, for all parameter values in the '
-    'boxes. Circuit SHAPES, options (tags_to_ignore, deep, strategies) and PRNG outcomes are enumerated from stated finite menus.'
+    'boxes. Circuit SHAPES, options (tags_to_ignore, deep, strategies) and PRNG outcomes are enumerated from stated finite menus. Two families are '
+    'solver-driven BOUNDED EXPLORATION and labelled so: add_dynamical_decoupling (discrete Clifford bookkeeping over a shape menu; only the exponents '
+    'of the non-Clifford wall gates are symbolic) and merge_single_qubit_gates_to_phxz_symbolized (symbols that reach the numeric re-synthesis take '
+    'lattice values; only the sweep values of a two-qubit-only symbol are symbolic).'
 )
 
 
@@ -1916,7 +1924,7 @@ ASSUMPTIONS = BASE_ASSUMPTIONS + [
     'compared quantity lies strictly inside a tolerance window of the code without hitting the special value are outside the claim '
     '(the encoding has no Lipschitz reasoning for the unit-circle abstraction)',
     'eject_z / eject_phased_paulis are run with atol=0.0 (eject_phased_paulis default is 1e-8)',
-    'np.random.Generator is replaced by a scripted generator: every choice(...) outcome with non-zero probability is explored as a selector, '
+    'np.random.Generator is replaced by a scripted generator (for the multi-moment gauge transformers a np.random.Generator subclass with the same scripted draws): every choice(...) outcome with non-zero probability is explored as a selector, '
     'the probability vector must sum to 1; random() is a symbolic real in [0,1] for the Rz gauges and a 4-value menu for the XY gauges',
     'meaning of one operation = cirq.unitary(op) / cirq.kraus(op) of that single operation (tied to the documentation by C03/C04); for the INPUT circuit the '
     'documented closed-form matrices (oracles/gates_doc.py) are used instead; composition, ordering, projection, branching on records, classical '
@@ -1930,16 +1938,27 @@ def main(tier, seed=0, replay=None, only=None, procs=None):
     bounds = {
         'parameter_box': [-BOX, BOX],
         'symbolic': 'every continuous parameter of every gate of the input circuit (fresh real per occurrence: exponents, phase exponents, PhasedXZ x/z/a, FSim theta/phi, rx/rz angles); prng.random() of the Rz gauges',
-        'enumerated': 'circuit shapes (menus below), options (deep, tags_to_ignore, categories, no_decomp, after_other_operations, tags_to_check, merge / map functions, k), every PRNG choice',
+        'enumerated': 'circuit shapes (menus below), options (deep, tags_to_ignore, categories, no_decomp, after_other_operations, tags_to_check, merge / map functions, k, decoupling schema, single_qubit_gate_moments_only, condition indices / bit masks), every PRNG choice, lattice values of the symbols that reach numeric re-synthesis in merge_single_qubit_gates_to_phxz_symbolized',
         'shape_menus': {
             'size': '<= 6 moments, <= 3 qubits (+ ancillas created by defer_measurements), <= 7 symbolic parameters per shape (quick); a few 6-op shapes and full 3-parameter PhasedXZ in thorough',
             'gate_menu': sorted(gate_table_names()),
             'neighbourhoods': 'Z / PhasedXZ(z) in front of (phased) X, CZ, swap-like (SWAP, ISWAP, FSim), CX/H (not phaseable), measurement, ignored op, end of circuit, nested CircuitOperation (plain, repeated, ignored, doubly nested ignored); held W in front of Z, partial W, CZ (single / double cross), another W, unknown gate, ignored op, measurement; gaps / ignored ops / nested circuits for align, stratify, drop_empty; measurement-key neighbourhoods (control after measurement, re-measurement of a key on the same / another qubit behind an op it controls, same key on two qubits, value-equal operations, control listed before a re-measurement in one moment) for every pass that moves or groups operations',
         },
-        'per_record_superoperators': 'measurement circuits: <= 2 system qubits (3 for one synchronize shape) + <= 3 ancillas',
+        'per_record_superoperators': 'measurement circuits: <= 2 system qubits (3 for one synchronize shape, the stratify reader shapes r3_*, the dynamical-decoupling measurement walls and one multi-moment gauge shape) + <= 4 ancillas',
+        'extension_families': {
+            'drop_diagonal_before_measurement.*': 'symbolic: every Z**t / CZ**t / X**t exponent. enumerated: 23 shapes (computational-basis MeasurementGate single / joint / inverted, PauliMeasurementGate X, -Y, Z, XZ on 1-2 qubits, CircuitOperation that rotates and then measures / measures directly, partially measured CZ, chain broken by a later gate, classical control, ignored tag), deep on/off, tags_to_ignore on/off, default context. Meaning of a Pauli-observable measurement: oracles/circuit_sem_ext.py (projectors (I +- O)/2 from the documentation, the decomposition of the gate is not used)',
+            'stratified_circuit.readers.*': 'symbolic: every gate exponent. enumerated: 7 shapes (two readers of one key on different qubits in successive moments / one moment, a third reader behind the re-measurement, re-measurement on the first qubit / on a reader qubit, 2 and 3 qubits), 8 category menus (none, MeasurementGate, qubit predicates, ClassicallyControlledOperation type and combinations)',
+            'defer_measurements.repeated.*': 'symbolic: every gate exponent. enumerated: 12 shapes with a key measured two / three times (earlier measurement equal to the terminal one with / without invert mask and readers, terminal measurement of a key measured earlier on the same / another qubit, two interleaved keys), KeyCondition index in {0, 1, -1, -2} (twice) / {0, 1, 2, -1, -2, -3} (three times), BitMaskKeyCondition (bitmask 1 == 1, bitmask 2 != 0, no bitmask == 2, defaults) on a two-bit key for every valid index, two readers with different indices. BitMaskKeyCondition semantics: oracles/circuit_sem_ext.py from its docstring',
+            'gauge_mm.cphase.*': 'symbolic: CZ**t / Z**t / X**t exponents. enumerated: 9 shapes (CircuitOperation / classically controlled operation next to a target CZ**t, CircuitOperation between target moments, unsupported gate, ignored tag, healthy one- and two-moment blocks on 2-3 active qubits), every Pauli choice of the left moment through a scripted np.random.Generator subclass (first of three draws fixed to X in the quick tier for the two 3-active-qubit shapes)',
+            'dynamical_decoupling.chain*': 'SOLVER-DRIVEN BOUNDED EXPLORATION over shapes: head layer, idle pattern (4), two two-qubit Cliffords from {CNOT(a,b), CNOT(b,a), CZ} on (r,p) then (p,q) in adjacent moments (thorough: optional third on (r,p) / (r,q) and an extra empty moment), wall menu (Z**t, X**t, CZ**t with SYMBOLIC t in (0.01, 0.49), T, measurement single / joint / next to Z**t), tail layer; schema in {XX_PAIR, X_XINV, YY_PAIR, Y_YINV, DEFAULT, custom (Y, Z, X)}; single_qubit_gate_moments_only on / off. Symbolic: the wall exponents only (the Clifford bookkeeping is discrete). Measurement walls: quick tier 2 schemas and the symbolic-gate-next-to-measurement wall only with the first idle pattern; constant super-operator entries are decided by evaluation (|a-b| <= 1e-9), the others by the solver',
+            'merge_1q_symbolized.*': 'BOUNDED EXPLORATION: symbols s, t occurring in single-qubit gates take lattice values {0.25, -0.5, 1, 0} (point 1: all 16 combinations; point 0: 2 combinations) because the pass re-synthesises single-qubit matrices numerically; symbolic: the two sweep values of a two-qubit-only symbol w. enumerated: 6 shapes (symbol shared by X**s and CZ**s / ZZ**s / ISWAP**t, expressions s + t in a single-qubit and in a two-qubit gate). Input side resolved by the harness with the documented matrices',
+        },
         'tolerance': TOL,
         'outside': [
-            'merge_single_qubit_gates_*, merge_single_qubit_moments_to_phxz, merge_k_qubit_unitaries (re-synthesis), drop_negligible_operations, dynamical_decoupling, randomized_measurements, diagonal_optimization, optimize_for_target_gateset, routing, noise_adding, qubit_management_transformers, lightcone_filter, idle_moments_gauge, multi_moment_cphase_gauge: np.angle / LAPACK / trace-distance code that cannot take symbolic parameters (or not in the DESIGN run list)',
+            'merge_single_qubit_gates_to_phased_x_and_z / _to_phxz, merge_single_qubit_moments_to_phxz, merge_k_qubit_unitaries (re-synthesis), drop_negligible_operations, randomized_measurements, optimize_for_target_gateset, routing, noise_adding, qubit_management_transformers, lightcone_filter, idle_moments_gauge: np.angle / LAPACK / trace-distance code that cannot take symbolic parameters (or not in the DESIGN run list)',
+            'merge_single_qubit_gates_to_phxz_symbolized beyond the bounded exploration stated under extension_families (symbols of single-qubit gates with values outside the 4-value lattice, more than 2 sweep points, deep=True, tags_to_ignore)',
+            'add_dynamical_decoupling: wall gates whose exponent can take Clifford values (the symbolic exponents range over (0.01, 0.49)), symbolic single-qubit Clifford layers (merged numerically through single_qubit_matrix_to_phxz), chains of more than two (thorough: three) two-qubit Clifford gates, more than 3 qubits, two-qubit Cliffords other than CNOT / CZ, context.deep, classically controlled operations',
+            'drop_diagonal_before_measurement: measurement confusion maps, qudits, Pauli-observable measurements on more than two qubits; CPhaseGaugeTransformerMM: blocks with more than three active qubits / more than two (thorough: three) target moments, a custom supported_gates set, deep=True (documented ValueError)',
             'XY gauges of ISWAP / SQRT_ISWAP with a symbolic angle (PhasedXZGate.from_matrix -> np.angle); CZ-gauge targets with symbolic exponent (GateFamily uses approximate equality); GaugeTransformer.as_sweep for gauges with symbolic post gates (single_qubit_matrix_to_phxz)',
             'eject_z / eject_phased_paulis with atol > 0, eject_parameterized=True (sympy), PhasedXZ with symbolic z in eject_phased_paulis (np.isclose window)',
             'insertion_sort_transformer on overlapping operations with SYMBOLIC parameters whose commutation is decided numerically (np.allclose on matrices); such pairs are concrete gates in the menu',
